@@ -20,7 +20,8 @@ WPrint(g) ==
     [] g.t = "LineString" -> IF g.c = <<>> THEN <<"LINESTRING", " ", "EMPTY">> ELSE <<"LINESTRING">> \o PtList(g.c)
     [] g.t = "MultiLineString" -> IF g.c = <<>> THEN <<"MULTILINESTRING", " ", "EMPTY">>
                              ELSE <<"MULTILINESTRING", "(">> \o Join([i \in 1..Len(g.c) |-> PtList(g.c[i])], <<",">>) \o <<")">>
-    [] g.t = "Ring"       -> WPrint([t |-> "Polygon", c |-> <<g.c>>])
+    \* a ring is printed as the polygon it denotes; the empty ring is an empty value and takes the EMPTY form
+    [] g.t = "Ring"       -> WPrint([t |-> "Polygon", c |-> IF g.c = <<>> THEN <<>> ELSE <<g.c>>])
     [] g.t = "Bound"      -> WPrint([t |-> "Polygon", c |-> <<WBoundRing(g.c)>>])
     [] g.t = "Polygon"    -> IF g.c = <<>> THEN <<"POLYGON", " ", "EMPTY">>
                              ELSE <<"POLYGON", "(">> \o Join([i \in 1..Len(g.c) |-> PtList(g.c[i])], <<",">>) \o <<")">>
@@ -30,7 +31,7 @@ WPrint(g) ==
     [] g.t = "Collection" -> IF g.g = <<>> THEN <<"GEOMETRYCOLLECTION", " ", "EMPTY">>
                              ELSE <<"GEOMETRYCOLLECTION", "(">> \o Join([i \in 1..Len(g.g) |-> WPrint(g.g[i])], <<",">>) \o <<")">>
 RECURSIVE Canon(_)
-Canon(g) == IF g.t = "Ring" THEN [t |-> "Polygon", c |-> <<g.c>>]
+Canon(g) == IF g.t = "Ring" THEN [t |-> "Polygon", c |-> IF g.c = <<>> THEN <<>> ELSE <<g.c>>]
             ELSE IF g.t = "Bound" THEN [t |-> "Polygon", c |-> <<WBoundRing(g.c)>>]
             ELSE IF g.t = "Collection" THEN [t |-> "Collection", g |-> [i \in 1..Len(g.g) |-> Canon(g.g[i])]] ELSE g
 
